@@ -65,7 +65,7 @@ def stunAttr (typ : Nat) (value tid : Array UInt8) (acc : StunAcc) : Cur StunAcc
     if value.size ≥ 4 then
       let c ← idx value 2
       let d ← idx value 3
-      pure { acc with err := c * 100 + d + 1 }
+      pure { acc with err := (c % 8) * 100 + d + 1 }       -- RFC 5389 §15.6: class = low three bits
     else pure acc
   else if typ = 0x0014 then
     if validUtf8 value then
@@ -228,21 +228,53 @@ def turnPacket (packet : Array UInt8) (peerKnown : Bool) : Cur (List Nat) := do
       let c ← handlePacketClass packet
       pure [3, c, packet.size]
 
-/-! ### TURN over TCP: `TurnClient::recv` frame read (turn.rs:363-386) -/
+/-! ### TURN over TCP: `TurnClient::recv` (turn.rs ~369-387, current tree: messages are self-delimiting) -/
 
-/-- the read loop `while offset < len { read = stream.read(&mut buf[offset..len]) … }`;
-`reads` = the byte counts the socket would deliver (0 / exhausted = EOF) -/
-def turnTcpBody (bufLen len : Nat) (s : Nat × List Nat) : Cur ((Nat × List Nat) ⊕ Nat) := do
-  let offset := s.1
-  if ¬ (offset < len) then pure (.inr len) else
-  let room ← sliceLen bufLen offset len                 -- `&mut buf[offset..len]`
-  let k := min (s.2.headD 0) room
-  if k = 0 then bail "TURN_TCP_stream_closed" else
-  pure (.inl (offset + k, s.2.tail))
+/-- `stream.read_exact(k bytes)` on the bytes the connection will still deliver before EOF: `err` when fewer remain -/
+def readExact (k : Nat) : Cur Unit := do
+  if (← remaining) < k then bail "early_eof" else advance k
 
-def turnTcpRecv (bufLen len : Nat) (reads : List Nat) : Cur Nat := do
-  if len > bufLen then bail "TURN_TCP_frame_exceeds_receive_buffer" else
-  loopM (turnTcpBody bufLen len) (len + 1) (0, reads)
+/-- one message read from the TCP stream (cursor = bytes the peer sends before closing) into a `bufLen`-byte buffer:
+4-byte header, length from the message's own length field (STUN: 20 + len; ChannelData: 4 + len, padded to four on the
+wire), `on_wire > buf.len()` rejected, then `buf[..4]` / `buf[4..on_wire]`. Result = message length. -/
+def turnTcpTail (bufLen len onWire : Nat) : Cur Nat := do
+  if onWire > bufLen then bail "TURN_TCP_message_exceeds_receive_buffer" else
+  let _ ← sliceLen bufLen 0 4                            -- `buf[..4].copy_from_slice(&header)`
+  let _ ← sliceLen bufLen 4 onWire                       -- `&mut buf[4..on_wire]`
+  readExact (onWire - 4)
+  pure len
+
+def turnTcpRecv (bufLen : Nat) : Cur Nat := do
+  if (← remaining) < 4 then bail "early_eof" else
+  let h0 ← peek 0
+  let b2 ← peek 2
+  let b3 ← peek 3
+  advance 4
+  let body := b2 * 256 + b3
+  if h0 / 64 = 1 then                                     -- `header[0] & 0xC0 == 0x40`: ChannelData
+    turnTcpTail bufLen (4 + body) (4 + (body + 3) / 4 * 4)
+  else turnTcpTail bufLen (20 + body) (20 + body)
+
+/-! ### the other TCP frame readers: RFC 4571 framing of `IceSocketWrapper::recv_from` (ice/mod.rs ~4682-4697) and
+`read_tcp_framed_packet` of the shared passive TCP listener (shared_tcp.rs:164-180) -/
+
+/-- `IceSocketWrapper::TcpStream(..).recv_from(buf)`: 2-byte length, rejected when larger than the buffer, body -/
+def tcp4571Recv (bufLen : Nat) : Cur Nat := do
+  if (← remaining) < 2 then bail "early_eof" else
+  let len ← getU16
+  if len > bufLen then bail "TCP_STUN_message_too_large" else
+  let _ ← sliceLen bufLen 0 len                           -- `&mut buf[..len]`
+  readExact len
+  pure len
+
+/-- `read_tcp_framed_packet(stream)`: first frame of an inbound TCP connection -/
+def sharedTcpFirstFrame : Cur Nat := do
+  if (← remaining) < 2 then bail "early_eof" else
+  let len ← getU16
+  if len = 0 ∨ len > c07MaxStunMessage then bail "invalid_TCP_STUN_frame_length" else
+  alloc len                                               -- `vec![0u8; len]`
+  readExact len
+  pure len
 
 /-! ### RTX (src/rtx.rs:49-74) -/
 
